@@ -561,7 +561,7 @@ func main() {
 
 	// authorisation defects inside simulated ledger behaviours
 	total := chain.RunStats{Tags: map[string]int{}}
-	for _, name := range []string{"v1only", "mixed", "v2only"} {
+	for _, name := range []string{"v1only", "mixed", "v2only", "foundation"} {
 		cfg := chain.BaseConfig(chain.Shapes()[name])
 		cfg.Defects = []string{"auth"}
 		st := chain.Run(c, cfg, chain.RunOpts{Num: c.Pick(120, 3000), Depth: 56, Timeout: 20 * time.Minute})
@@ -589,7 +589,7 @@ func main() {
 	c.Cov("ledger_transactions_by_template", total.Tags)
 	c.Traces(int64(total.Behaviours))
 	c.Count(int64(total.Steps), int64(total.Rejected))
-	for _, need := range []string{"v1:pay!badsig", "v2:pay!badsig", "v2:pay!nosig", "v1:pay!wrongkey", "v2:rev2!newkeys", "v1:rev1!badsig"} {
+	for _, need := range []string{"v1:pay!badsig", "v2:pay!badsig", "v2:pay!nosig", "v1:pay!wrongkey", "v2:rev2!newkeys", "v1:rev1!badsig", "v2:attest!badsig"} {
 		if total.Tags[need] == 0 {
 			c.Infra("vacuity: ledger authorisation defect %s never occurred", need)
 		}
